@@ -575,3 +575,158 @@ pub fn run_c08(o: &crate::Opts) {
     let n_cases = sink.n;
     sink.finish(o, &format!("{{\"cases\":{},\"dest_and_status\":{{{}}},\"samples\":[{}]}}", n_cases, kinds_json.join(","), samples.join(",")));
 }
+
+// ------------------------------------------------------------------ C19: real `lace watch` sessions
+
+use std::io::Read as _;
+use std::sync::{Arc, Mutex};
+
+/// Run one `lace watch` session: save each source in turn over the watched file and collect the
+/// verdict of every re-check (`ok` / `diag` / `none` if no re-check was observed).
+fn watch_session(dir: &Path, sources: &[String], stack: bool) -> Vec<String> {
+    let file = dir.join("w.asm");
+    std::fs::write(&file, "halt\n").unwrap();
+    let mut args = vec!["watch", "w.asm"];
+    if stack {
+        args.extend_from_slice(&["-f", "stack"]);
+    }
+    let mut child = Command::new(lace_bin())
+        .args(&args)
+        .current_dir(dir)
+        .env("NO_COLOR", "1")
+        .stdin(Stdio::null())
+        .stdout(Stdio::piped())
+        .stderr(Stdio::null())
+        .spawn()
+        .expect("spawn lace watch");
+    let buf: Arc<Mutex<Vec<u8>>> = Arc::new(Mutex::new(Vec::new()));
+    let mut out = child.stdout.take().unwrap();
+    let b2 = buf.clone();
+    let reader = std::thread::spawn(move || {
+        let mut chunk = [0u8; 4096];
+        loop {
+            match out.read(&mut chunk) {
+                Ok(0) | Err(_) => break,
+                Ok(n) => b2.lock().unwrap().extend_from_slice(&chunk[..n]),
+            }
+        }
+    });
+    // wait for the watcher to be up ("press CTRL+C to exit")
+    let start = Instant::now();
+    while start.elapsed() < Duration::from_millis(5000) {
+        if String::from_utf8_lossy(&buf.lock().unwrap()).contains("CTRL+C") {
+            break;
+        }
+        std::thread::sleep(Duration::from_millis(20));
+    }
+    std::thread::sleep(Duration::from_millis(300));
+    let mut verdicts = Vec::new();
+    for src in sources {
+        let mark = buf.lock().unwrap().len();
+        std::fs::write(&file, src).unwrap();
+        // a re-check is announced by "Re-checking"; its verdict follows; events may be delivered
+        // twice (truncate + write), so wait for quiet and take the last verdict
+        let t0 = Instant::now();
+        let mut last_len = mark;
+        let mut quiet_since = Instant::now();
+        loop {
+            std::thread::sleep(Duration::from_millis(40));
+            let len = buf.lock().unwrap().len();
+            if len != last_len {
+                last_len = len;
+                quiet_since = Instant::now();
+            }
+            let seen = String::from_utf8_lossy(&buf.lock().unwrap()[mark..]).contains("Re-checking");
+            if (seen && quiet_since.elapsed() > Duration::from_millis(900)) || t0.elapsed() > Duration::from_millis(6000) {
+                break;
+            }
+        }
+        let text = String::from_utf8_lossy(&buf.lock().unwrap()[mark..]).to_string();
+        let v = match text.rfind("Re-checking") {
+            None => "none",
+            Some(i) => {
+                let tail = &text[i..];
+                if tail.contains("no errors found") { "ok" } else { "diag" }
+            }
+        };
+        verdicts.push(v.to_string());
+    }
+    let _ = child.kill();
+    let _ = child.wait();
+    let _ = reader.join();
+    verdicts
+}
+
+fn check_verdict(dir: &Path, src: &str, stack: bool) -> String {
+    std::fs::write(dir.join("c.asm"), src).unwrap();
+    let mut a = vec!["check", "c.asm"];
+    if stack {
+        a.extend_from_slice(&["-f", "stack"]);
+    }
+    match spawn(dir, &a, &[], 20000).status {
+        Some(0) => "ok".into(),
+        Some(101) => "panic".into(),
+        Some(_) => "diag".into(),
+        None => "timeout".into(),
+    }
+}
+
+/// C19 (process mode): every re-check of `lace watch` must equal a fresh `lace check`.
+pub fn run_c19w(o: &crate::Opts) {
+    let mut sink = crate::Sink::new(o);
+    let tmp = TmpDir::new(&format!("c19w-{}", o.shard));
+    let dir = tmp.0.clone();
+    let run_one = |dir: &Path, stack: bool, srcs: &[String]| -> String {
+        let w = watch_session(dir, srcs, stack);
+        let fresh: Vec<String> = srcs.iter().map(|s| check_verdict(dir, s, stack)).collect();
+        format!("watch={} fresh={}", w.join(","), fresh.join(","))
+    };
+    let req_of = |stack: bool, srcs: &[String]| -> String {
+        let mut s = format!("W19 {} {:x}", stack as u8, srcs.len());
+        for x in srcs {
+            s.push(' ');
+            s.push_str(&hex(x.as_bytes()));
+        }
+        s
+    };
+    if let Some(path) = &o.replay {
+        for line in std::fs::read_to_string(path).unwrap().lines() {
+            let f: Vec<&str> = line.split_whitespace().collect();
+            let obs = (|| {
+                let stack = *f.get(1)? != "0";
+                let srcs: Option<Vec<String>> = f[3..].iter().map(|h| String::from_utf8(unhex(h)?).ok()).collect();
+                Some(run_one(&dir, stack, &srcs?))
+            })()
+            .unwrap_or_else(|| "bad-request".into());
+            sink.put(line, &obs);
+        }
+        sink.finish(o, "{}");
+        return;
+    }
+    let mut rng = Rng::new(o.seed.wrapping_mul(9176) ^ (o.shard as u64) << 32 ^ 0xC19);
+    // building blocks: valid, lexer failure, failure after labels were recorded (parser, backpatch,
+    // emission), sources sharing label names with their predecessors (defining or only using them)
+    let pool: [&str; 10] = [
+        "start add r0 r0 #1\nloop brnzp loop\nhalt\n",
+        "loop add r0 r0 #1\nstart halt\n",
+        "start add r0 r0 #1\n\"unterminated\n",
+        "start add r0 r0 #1\nloop add r0 r0\nhalt\n",
+        "start ld r0 missing\nhalt\n",
+        "ld r0 start\nhalt\n",
+        "br loop\nhalt\n",
+        "start lea r0 far\n.blkw #300\nfar halt\n",
+        "data .fill x1\nld r1 data\nhalt\n",
+        "ld r1 data\nhalt\nhalt\ndata .fill x2\n",
+    ];
+    let sessions = if o.thorough { 6 } else { 1 };
+    let mut n = 0;
+    for _ in 0..sessions {
+        let len = rng.range(3, 6) as usize;
+        let srcs: Vec<String> = (0..len).map(|_| (*rng.pick(&pool)).to_string()).collect();
+        let obs = run_one(&dir, false, &srcs);
+        sink.put(&req_of(false, &srcs), &obs);
+        n += 1;
+    }
+    let n_cases = sink.n;
+    sink.finish(o, &format!("{{\"cases\":{},\"watch_sessions\":{},\"samples\":[]}}", n_cases, n));
+}
